@@ -68,7 +68,12 @@ def judge_save(doc, model, how, tmpdir, tag):
     """-> (violations, artefact)"""
     out = []
     E = DL.expected_state(doc, model)
-    artefact, pkg = DL.save_doc(doc, how, tmpdir, pretty=False, tag=tag)
+    try:
+        artefact, pkg = DL.save_doc(doc, how, tmpdir, pretty=False, tag=tag)
+    except Exception as e:
+        import traceback
+
+        return [(f"save-raised:{how}:{type(e).__name__}", {"exc": repr(e), "tb": traceback.format_exc()[-700:]})], None
     A = dict(pkg.parts)
     for d in pkg.dirs:
         A[d] = b""
